@@ -103,6 +103,10 @@ func decOrigins(c *Ctx) *Origins {
 // isFreshDecimal: every root of v is a fresh allocation of a number
 // (newDecimalBig(), decimal.New, decimal.WithContext, new(decimal.Big)).
 func (c *Ctx) isFreshDecimal(v ssa.Value) (bool, string) {
+	return c.isFreshDecimalDepth(v, 0)
+}
+
+func (c *Ctx) isFreshDecimalDepth(v ssa.Value, depth int) (bool, string) {
 	rs := decOrigins(c).Roots(v)
 	if len(rs) == 0 {
 		return false, "no origin"
@@ -119,6 +123,23 @@ func (c *Ctx) isFreshDecimal(v ssa.Value) (bool, string) {
 			}
 			if s == decimalPath+".New" || s == decimalPath+".WithContext" || s == decimalPath+".WithPrecision" {
 				continue
+			}
+			// a module helper all of whose returns are numbers created inside it
+			if c.inModule(r.Fn) && depth < 2 && len(r.Fn.Blocks) > 0 {
+				allFresh, nret := true, 0
+				instrs(r.Fn, func(b *ssa.BasicBlock, i int, in ssa.Instruction) {
+					ret, ok := in.(*ssa.Return)
+					if !ok || r.Idx >= len(ret.Results) {
+						return
+					}
+					nret++
+					if fr, _ := c.isFreshDecimalDepth(ret.Results[r.Idx], depth+1); !fr {
+						allFresh = false
+					}
+				})
+				if allFresh && nret > 0 {
+					continue
+				}
 			}
 			return false, r.String()
 		case "alloc":
